@@ -35,6 +35,17 @@ set_option linter.unusedSimpArgs false
 namespace AITB.MS
 open AITB AITB.Factored AITB.Sampling
 
+/-! ## OBLIGATIONS over the regenerated source facts -/
+
+/-- the translator found all 28 functions of this round (tolerance helpers, isProbability family, index helpers, DDN row ids,
+    dynamics, rewards, copy constructor) in exactly the text the model was written from -/
+theorem sites_all_listed : AITB.Gen.C06Sites.asModelled.length = 28 := by decide
+
+/-- the tolerance every row test uses is the documented 1e-6 (a larger `equalToleranceSmall` would silently widen every
+    acceptance condition AND the slack of the checkers, which are stated in terms of `tol`) -/
+theorem tolerance_is_documented : tol = 1 / 1000000 := by
+  unfold tol AITB.Gen.equalToleranceSmall; norm_num
+
 /-! ## index arithmetic (re-proved) -/
 
 theorem cd_getD_map_range {β : Type} (f : Nat → β) (d : β) (n i : Nat) (h : i < n) :
@@ -264,6 +275,13 @@ theorem jointProbLoop_eq (g : Graph) (mats : List Mat) (s a s1 : List Nat) :
   induction n with
   | zero => rfl
   | succ n ih => rw [List.range_succ, List.foldl_append, ih]; rfl
+
+/-- the PartialFactors overload asked about every feature is the full joint probability -/
+theorem marginal_full_eq_joint (g : Graph) (mats : List Mat) (s a s1 : List Nat) :
+    marginalProb g mats s a ((List.range g.S.length).map (fun i => (i, s1.getD i 0))) = jointProb g mats s a s1 := by
+  rw [← jointProbLoop_eq]
+  unfold marginalProb jointProbLoop
+  rw [List.foldl_map]
 
 theorem prodIdx_congr (f f' : Nat → Rat) : ∀ n, (∀ i < n, f i = f' i) → prodIdx f n = prodIdx f' n
   | 0, _ => rfl
